@@ -104,6 +104,11 @@ def run(ctx):
         min(len((c["stmt"].get("q") or {}).get("rows") or []), 10) for c in cases if c["stmt"]["kind"] == "construct").items()))
     ctx.cov["reified_constructs"] = sum(1 for c in cases if c["stmt"]["kind"] == "construct" and c["stmt"]["obs"]["class"] == "ok"
                                         and any(len(cl["pairs"]) > 1 for cl in c["stmt"]["tmpl"]) and (c["stmt"].get("q") or {}).get("rows"))
+    with_rows = sum(1 for c in cases if c["stmt"]["kind"] == "construct" and (c["stmt"].get("q") or {}).get("rows"))
+    ctx.cov["constructs_with_rows"] = with_rows
+    if ctx.cov["reified_constructs"] < 3 or with_rows < 20:
+        ctx.broken("generator degenerate: %d successful reifying constructs, %d constructs with solution rows"
+                   % (ctx.cov["reified_constructs"], with_rows))
     nerr = sum(v for k, v in classes.items() if not k.endswith("/ok"))
     if cases and nerr > 0.45 * len(cases):
         ctx.notes.append("generator produced %d/%d non-ok statements" % (nerr, len(cases)))
